@@ -370,6 +370,8 @@ func (db *SpecDB) loadFile(path string, pkgPath string, marker bool) error {
 				if cur.Trusted == "" {
 					cur.Trusted = "assumed"
 				}
+			case "unverified":
+				cur.Trusted = "NOT YET VERIFIED: " + rest
 			case "aliasing":
 				cur.Aliasing = rest
 			case "timeout":
